@@ -76,7 +76,7 @@ def trees() -> List[Dict[str, Any]]:
         Cfg("Q", "bool", prompt="q", depends=[S("P")]),
         Cfg("R", "int", prompt="r", depends=[S("P")], defaults=[(L("1"), None)]),
     ]
-    T("menuconfig_implicit_submenu", kids, {"int": ["4"]}, {"absent": None, "hand": "CONFIG_MC=y\nCONFIG_P=y\nCONFIG_Q=y\n"}, {"off.cfg": "# CONFIG_MC is not set\n# CONFIG_P is not set\n"})
+    T("menuconfig_implicit_submenu", kids, {"int": ["4"]}, {"absent": None, "hand": "CONFIG_MC=y\nCONFIG_P=y\nCONFIG_Q=y\n"}, {"off.cfg": "# CONFIG_MC is not set\n# CONFIG_P is not set\n"}, weight=8)
 
     # menuconfig option that stays y by default while its prompt is hidden
     kids = [
@@ -93,7 +93,7 @@ def trees() -> List[Dict[str, Any]]:
         Choice(name="CH", prompt="c", children=[Cfg("X", "bool", prompt="x"), Cfg("X1", "bool", prompt="x1")]),
         Choice(name="CH", prompt=None, children=[Cfg("X2", "bool", prompt="x2", prompt_cond=S("Y"))]),
     ]
-    T("named_choice_twice", kids, {}, {"absent": None, "hand": "CONFIG_Y=y\nCONFIG_X2=y\n"}, {"off.cfg": "# CONFIG_Y is not set\n"})
+    T("named_choice_twice", kids, {}, {"absent": None, "hand": "CONFIG_Y=y\nCONFIG_X2=y\n"}, {"off.cfg": "# CONFIG_Y is not set\n"}, weight=7)
 
     # a choice whose prompt is conditional, inside a menu
     kids = [
@@ -130,22 +130,25 @@ def trees() -> List[Dict[str, Any]]:
     kids = [a, Cfg("N", "int", prompt="n", defaults=[(L("1"), None)]), Cfg("SS", "string", prompt="ss", defaults=[(L('"d"'), None)])]
     T("locked_by_set", kids, {"int": ["3"], "string": ["u"]}, {"absent": None, "hand": "CONFIG_A=y\nCONFIG_N=3\n"}, {"off.cfg": "# CONFIG_A is not set\n"})
 
-    # ranges with symbol bounds that can be empty
+    # ranges with symbol bounds that can be empty (one tree per type)
     kids = [
         Cfg("A", "bool", prompt="a"),
         Cfg("LO", "int", prompt="lo", prompt_cond=S("A")),
-        Cfg("HI", "int", prompt="hi", defaults=[(L("9"), None)]),
-        Cfg("R", "int", prompt="r", ranges=[(S("LO"), S("HI"), None)], defaults=[(L("3"), None)]),
+        Cfg("R", "int", prompt="r", ranges=[(S("LO"), L("9"), None)], defaults=[(L("3"), None)]),
     ]
     T("range_symbol_bounds_int", kids, {"int": ["4"]}, {"absent": None, "hand": "CONFIG_A=y\nCONFIG_LO=2\n"}, {"off.cfg": "# CONFIG_A is not set\n"}, weight=9)
     kids = [
         Cfg("A", "bool", prompt="a"),
         Cfg("HX", "hex", prompt="hx", prompt_cond=S("A")),
         Cfg("H", "hex", prompt="h", ranges=[(L("0x1"), S("HX"), None)], defaults=[(L("0x3"), None)]),
+    ]
+    T("range_symbol_bounds_hex", kids, {"hex": ["0x5"]}, {"absent": None, "hand": "CONFIG_A=y\nCONFIG_HX=0x20\n"}, {"off.cfg": "# CONFIG_A is not set\n"}, weight=9)
+    kids = [
+        Cfg("A", "bool", prompt="a"),
         Cfg("FH", "float", prompt="fh", prompt_cond=S("A")),
         Cfg("F", "float", prompt="f", ranges=[(L("0.5"), S("FH"), None)], defaults=[(L("1.5"), None)]),
     ]
-    T("range_symbol_bounds_hex_float", kids, {"hex": ["0x5"], "float": ["2.5"]}, {"absent": None, "hand": "CONFIG_A=y\nCONFIG_HX=0x20\nCONFIG_FH=9.5\n"}, {"off.cfg": "# CONFIG_A is not set\n"}, weight=9)
+    T("range_symbol_bounds_float", kids, {"float": ["2.5"]}, {"absent": None, "hand": "CONFIG_A=y\nCONFIG_FH=9.5\n"}, {"off.cfg": "# CONFIG_A is not set\n"}, weight=9)
 
     # every scalar type with and without a range
     kids = [
@@ -157,10 +160,13 @@ def trees() -> List[Dict[str, Any]]:
     kids = [
         Cfg("H", "hex", prompt="h", defaults=[(L("0x1"), None)]),
         Cfg("HR", "hex", prompt="hr", ranges=[(L("0x0"), L("0xff"), None)], defaults=[(L("0x2"), None)]),
+    ]
+    T("scalars_hex", kids, {"hex": ["0x1f"]}, {"absent": None}, {}, weight=5)
+    kids = [
         Cfg("F", "float", prompt="f", defaults=[(L("1.0"), None)]),
         Cfg("FR", "float", prompt="fr", ranges=[(L("-3.0"), L("2000.0"), None)], defaults=[(L("1.5"), None)]),
     ]
-    T("scalars_hex_float", kids, {"hex": ["0x1f"], "float": ["2.5"]}, {"absent": None}, {}, weight=5)
+    T("scalars_float", kids, {"float": ["2.5"]}, {"absent": None}, {}, weight=5)
 
     kids = [
         Cfg("W", "bool", prompt="w", warning="danger"),
@@ -239,7 +245,38 @@ def row_obs(st: headless.Harness) -> Dict[str, Any]:
             rows.append((st.nid(n), None, it.str_value, tuple(it.assignable), None))
         else:
             rows.append((st.nid(n), None, None, (), None))
-    return {"cur_menu": st.nid(st.state.cur_menu), "rows": rows}
+    return {"cur_menu": st.nid(st.state.cur_menu), "rows": rows, "bad": tuple(k for k, _m in invariants(st))}
+
+
+def invariants(st: headless.Harness) -> List[Tuple[str, str]]:
+    """(b): violated consistency invariants of the session state, as (kind, message)"""
+    out: List[Tuple[str, str]] = []
+    state = st.state
+    if state.shown:
+        if not (0 <= state.sel_node_i < len(state.shown)):
+            out.append(("sel_node_i_out_of_range", f"sel_node_i={state.sel_node_i} but {len(state.shown)} rows are shown"))
+        want = state.shown_nodes(state.cur_menu)
+        if [id(n) for n in want] != [id(n) for n in state.shown]:
+            out.append(
+                (
+                    "shown_differs_from_shown_nodes",
+                    f"state.shown is {[st.node_label(n) for n in state.shown]} but shown_nodes(cur_menu) gives {[st.node_label(n) for n in want]}",
+                )
+            )
+    if not st.app.exited:
+        rows = st.ml._menu_nodes
+        back = [] if state.cur_menu is st.k.top_node else [None]
+        if [id(n) for n in rows] != [id(n) for n in back + list(state.shown)]:
+            out.append(
+                (
+                    "list_rows_out_of_sync",
+                    f"the list widget shows {[st.node_label(n) for n in rows]} but the model's rows are {[st.node_label(n) for n in back + list(state.shown)]} (cur_menu {st.node_label(state.cur_menu)})",
+                )
+            )
+        hl = st.ml.highlighted
+        if rows and (hl is None or not (0 <= hl < len(rows))):
+            out.append(("highlighted_row_missing", f"highlighted={hl} with {len(rows)} rows"))
+    return out
 
 
 def denotes(typ: str, got: str, v: str) -> bool:
@@ -275,33 +312,18 @@ def oracle(item: Dict[str, Any], h: tuple, st: headless.Harness, pre: Optional[D
         return
     state = st.state
     where = f"[{item['tree']} / {item['sdk_kind']}] after {headless.fmt_history(h) or 'start'}"
-    act = headless.action_abstract(h[-1]) if h else "init"
-    ctx = {"menu": st.last_menu_kind if h else "top", "target": st.last_target_kind if h else None}
+    act = headless.action_family(h[-1], st.last_target_kind) if h else "init"
+    ctx = {"menu": st.last_menu_kind if h else "top", "target": (st.last_target_kind if act != "leave" else None) if h else None}
 
     def viol(sig: Dict[str, Any], msg: str) -> None:
         r.violation(sig, f"{where}: {msg}", mk_case(item, h))
 
-    # (b) highlighted row / displayed list
-    if state.shown:
-        if not (0 <= state.sel_node_i < len(state.shown)):
-            viol({"kind": "sel_node_i_out_of_range", "action": act, **ctx}, f"sel_node_i={state.sel_node_i} but {len(state.shown)} rows are shown")
-        want = state.shown_nodes(state.cur_menu)
-        if [id(n) for n in want] != [id(n) for n in state.shown]:
-            viol(
-                {"kind": "shown_differs_from_shown_nodes", "action": act, **ctx},
-                f"state.shown is {[st.node_label(n) for n in state.shown]} but shown_nodes(cur_menu) gives {[st.node_label(n) for n in want]}",
-            )
-    if not st.app.exited:
-        rows = st.ml._menu_nodes
-        back = [] if state.cur_menu is st.k.top_node else [None]
-        if [id(n) for n in rows] != [id(n) for n in back + list(state.shown)]:
-            viol(
-                {"kind": "list_rows_out_of_sync", "action": act, **ctx},
-                f"the list widget shows {[st.node_label(n) for n in rows]} but the model's rows are {[st.node_label(n) for n in back + list(state.shown)]} (cur_menu {st.node_label(state.cur_menu)})",
-            )
-        hl = st.ml.highlighted
-        if rows and (hl is None or not (0 <= hl < len(rows))):
-            viol({"kind": "highlighted_row_missing", "action": act, **ctx}, f"highlighted={hl} with {len(rows)} rows")
+    # (b) highlighted row / displayed list: reported on the transition that breaks the invariant
+    pre_bad = tuple(pre["bad"]) if pre is not None else ()
+    prev = pre_bad[0] if pre_bad else "consistent"
+    for kind, msg in invariants(st):
+        if kind not in pre_bad:
+            viol({"kind": kind, "action": act, **ctx}, msg)
     if not h or pre is None:
         return
     a = h[-1]
@@ -313,20 +335,20 @@ def oracle(item: Dict[str, Any], h: tuple, st: headless.Harness, pre: Optional[D
         if st.nid(parent) == post_cur:
             r.count("menus_left")
             if not state.shown or not (0 <= state.sel_node_i < len(state.shown)) or st.nid(state.shown[state.sel_node_i]) != pre_cur:
-                viol({"kind": "leave_menu_not_on_left_menu_row", "action": act, **ctx}, "after leaving, the selected row is not the menu that was left")
+                viol({"kind": "leave_menu_not_on_left_menu_row", "pre_state": prev, "action": act, **ctx}, "after leaving, the selected row is not the menu that was left")
     # (d) toggles apply members of assignable
     for name, val, asg, _before in st.setval_log:
         if val in ("n", "y"):
             val = {"n": 0, "y": 2}[val]
         if val in (0, 2) and asg is not None and val not in asg:
-            viol({"kind": "toggle_outside_assignable", "action": act, **ctx}, f"{name}: value {val} applied while assignable was {asg}")
+            viol({"kind": "toggle_outside_assignable", "pre_state": prev, "action": act, **ctx}, f"{name}: value {val} applied while assignable was {asg}")
     # (e) locked options keep their value when acted upon
     if a[0] == "row" and a[1] < len(pre["rows"]) and pre["rows"][a[1]] is not None:
         nid, name, before, asg, lock = pre["rows"][a[1]]
         if lock is not None:
             now = st.k.syms[name].str_value
             if now != before:
-                viol({"kind": "locked_option_changed", "lock": lock, "action": act, **ctx}, f"{name} is locked by `{lock}` but changed from {before!r} to {now!r}")
+                viol({"kind": "locked_option_changed", "lock": lock, "pre_state": prev, "action": act, **ctx}, f"{name} is locked by `{lock}` but changed from {before!r} to {now!r}")
     # (f) validator accepted => value applied
     tgt = st.last_target
     if st.input_log and tgt is not None and isinstance(tgt.item, Symbol):
@@ -341,7 +363,7 @@ def oracle(item: Dict[str, Any], h: tuple, st: headless.Harness, pre: Optional[D
             if not denotes(typ, got, v):
                 cls = value_class(typ, v)
                 viol(
-                    {"kind": "validator_accepted_value_not_applied", "type": typ, "value_class": cls, "ranged": bool(sym.ranges)},
+                    {"kind": "validator_accepted_value_not_applied", "type": typ, "value_class": cls, "ranged": bool(sym.ranges), "pre_state": prev},
                     f"check_valid accepted {v!r} for the {typ} option {sym.name} but its value is {got!r}",
                 )
     r.outcome((item["tree"], item["sdk_kind"], st.canon()))
@@ -364,10 +386,14 @@ def value_class(typ: str, v: str) -> str:
     return "plain"
 
 
-def raised_violation(item: Dict[str, Any], h: tuple, e: headless.Raised, r: common.Result) -> None:
-    sig = {"kind": "exception", "exc": e.exc_type, "site": e.site, "action": headless.action_abstract(e.action) if e.index >= 0 else e.action[0]}
-    sig["target"] = e.ctx.get("target")
-    sig["menu"] = e.ctx.get("menu")
+def raised_violation(item: Dict[str, Any], h: tuple, e: headless.Raised, r: common.Result, pre: Optional[Dict[str, Any]] = None) -> None:
+    pre_bad = tuple(pre["bad"]) if pre is not None else ()
+    sig = {"kind": "exception", "exc": e.exc_type, "site": e.site, "pre_state": pre_bad[0] if pre_bad else "consistent"}
+    if not pre_bad:
+        # the session was consistent before the action: name the action and what it was aimed at
+        sig["action"] = headless.action_family(e.action, e.ctx.get("target"))
+        sig["target"] = e.ctx.get("target") if sig["action"] != "leave" else None
+        sig["menu"] = e.ctx.get("menu")
     r.violation(sig, f"[{item['tree']} / {item['sdk_kind']}] {headless.fmt_history(h)}: {e}", mk_case(item, h))
 
 
@@ -413,7 +439,7 @@ def explore_item(item: Dict[str, Any], r: common.Result, only_history: Any = Non
         if not isinstance(e, headless.Raised):
             raise e
         r.evals += 1
-        raised_violation(item, P + h, e, r)
+        raised_violation(item, P + h, e, r, memo.get(h[:-1]) if h else None)
 
     def check(h, st):
         if h:
@@ -447,11 +473,12 @@ def explore_item(item: Dict[str, Any], r: common.Result, only_history: Any = Non
     try:
         if only_history is not None:
             h = headless.norm_history(only_history)
+            pre = None
             try:
                 pre = row_obs(headless.replay(spec, h[:-1])) if h else None
                 oracle(item, h, headless.replay(spec, h), pre, r)
             except headless.Raised as e:
-                raised_violation(item, h, e, r)
+                raised_violation(item, h, e, r, pre)
             return None
         try:
             st = explore.bfs(build, enabled, canon, check, depth, on_raise=on_raise)
